@@ -82,7 +82,7 @@ func apiTypeShape(v ssa.Value) (ptr bool, ctor string) {
 }
 
 func checkC19(c *core.Ctx, l *core.Ledger) {
-	l.Explanation = "Static clauses of C19: (EXH) buildType handles every TypeSpec kind; FormatType handles every pointer field of api.Type and every api.SimpleType constant; (SIMPLE-AGREE) for each base type the api.SimpleType constant buildType emits is formatted by FormatType to the same Go type name the core generator's typeName uses; (PTR-AGREE) for every TypeSpec kind (and typedef-of-kind) and both requiredness values, buildType wraps the description in a pointer exactly when the core generator's typeReference (required) / typeReferencePtr (optional) prefixes '*' — decided by a finite-domain path analysis of all three functions with the predicate tables of isReferenceType/isStructType/isPrimitiveType; (CTOR-AGREE) container descriptions use the constructor whose FormatType literal equals typeName's literal, selected by the same hashability predicate; (HELPER-PTR) the response helpers take the address of the success value exactly for the kinds whose result field is a pointer to the value type; (REQUEST) a service is added only after its module id was found, modules are registered before root services; (HELPERS) on every shape class WrapResponse returns the success struct only when err == nil, has one nil-checked arm per declared exception and otherwise returns (nil, err); UnwrapResponse tests every exception before success and fails on an empty non-void result; IsException has one arm per exception and a false default. (TYPE-IDENTITY) nothing in gen treats two type specifications as the same because their ThriftName()s are equal (declared exceptions of two files may share a name). NOT decided: ids/paths of a concrete request; helper round trips on values."
+	l.Explanation = "Static clauses of C19: (EXH) buildType handles every TypeSpec kind; FormatType handles every pointer field of api.Type and every api.SimpleType constant; (SIMPLE-AGREE) for each base type the api.SimpleType constant buildType emits is formatted by FormatType to the same Go type name the core generator's typeName uses; (PTR-AGREE) for every TypeSpec kind (and typedef-of-kind) and both requiredness values, buildType wraps the description in a pointer exactly when the core generator's typeReference (required) / typeReferencePtr (optional) prefixes '*' — decided by a finite-domain path analysis of all three functions with the predicate tables of isReferenceType/isStructType/isPrimitiveType; (CTOR-AGREE) container descriptions use the constructor whose FormatType literal equals typeName's literal, selected by the same hashability predicate; (HELPER-PTR) the response helpers take the address of the success value exactly for the kinds whose result field is a pointer to the value type; (REQUEST) a service is added only after its module id was found, modules are registered before root services; (HELPERS) on every shape class WrapResponse returns the success struct only when err == nil, has one nil-checked arm per declared exception and otherwise returns (nil, err); UnwrapResponse tests every exception before success and fails on an empty non-void result; IsException has one arm per exception and a false default. (TYPE-IDENTITY) nothing in gen treats two type specifications as the same because their ThriftName()s are equal (declared exceptions of two files may share a name). (PAIR-ORDER) TypePair.Left/Right are built from the key/value specification and formatted into the key/value position, in that order. NOT decided: ids/paths of a concrete request; helper round trips on values."
 	l.RuleText = "one obligation per table row / (kind, requiredness) / (template, shape class)"
 	l.Exhaustive = true
 	ka := newKindAnalysis(c)
@@ -245,6 +245,7 @@ func checkC19(c *core.Ctx, l *core.Ledger) {
 	l.Floor("PTR-AGREE", 40)
 	checkArgumentNames(c, l)
 	checkTypeIdentity(c, l, "TYPE-IDENTITY", []string{"gen"})
+	checkPairOrder(c, l, "PAIR-ORDER")
 
 	// ---- HELPER-PTR: isPrimitiveType(k) == !isReferenceType(k) && !isStructType(k) for every root kind
 	{
